@@ -120,6 +120,9 @@ func newC11World() *c11world {
 	// the type map need not know the wire name of a map type that only occurs as a struct field
 	// (TypeMapOf-style maps do not): decoding is complete without it, so it must stay absent
 	delete(w.tm, "com.example.Counts")
+	// a class registered through a pointer type (reflect.TypeOf(&T{})): whatever the decoder makes of
+	// such an entry, it must leave it as the caller wrote it
+	w.tm["ptr.Registered"] = reflect.TypeOf(&zoo.Inner{})
 	w.nmExtracted = copyNames(w.nm) // complete by construction: extracted from every value used below
 	for _, v := range w.values {
 		b, err := hessian.ToBytes(v, w.nm)
@@ -127,6 +130,8 @@ func newC11World() *c11world {
 			w.wires = append(w.wires, b)
 		}
 	}
+	ptrReg, _ := hspec.Encode(hspec.Object("ptr.Registered", []string{"a", "s"}, hspec.Int(3), hspec.String("p")), hspec.Canonical{}, hspec.EncOpts{})
+	w.wires = append(w.wires, ptrReg)
 	unknownCls, _ := hspec.Encode(hspec.Object("no.such.Class", []string{"a", "b"}, hspec.Int(1), hspec.Int(2)), hspec.Canonical{}, hspec.EncOpts{})
 	unknownList, _ := hspec.Encode(hspec.List("[no.such", hspec.Int(1)), hspec.Canonical{}, hspec.EncOpts{})
 	defThenScalar := append(append([]byte{}, unknownCls[:len(unknownCls)-3]...), 0x90) // definition, then an int instead of an instance
@@ -154,7 +159,7 @@ func newC11World() *c11world {
 	})
 	p1, _ := hspec.Encode(msg, ch, hspec.EncOpts{})
 	p2, _ := hspec.Encode(hspec.Object("Inner", []string{"s", "a"}, hspec.String("perm"), hspec.Int(5)), hspec.Canonical{}, hspec.EncOpts{})
-	w.decProbes = [][]byte{p1, p2, {0x60}, {0x51, 0x90}, {0x72, 0x90, 0x90, 0x91}, {'O', 0x90}, {0x79, 0x51, 0x91}}
+	w.decProbes = [][]byte{p1, p2, ptrReg, {0x60}, {0x51, 0x90}, {0x72, 0x90, 0x90, 0x91}, {'O', 0x90}, {0x79, 0x51, 0x91}}
 	return w
 }
 
@@ -360,6 +365,12 @@ func (c11) Run(c Case, env *Env) Result {
 			}
 			if len(w.tm) != len(tmSnap) {
 				viol("map-modified", what+" wrote to the complete caller-supplied type map")
+			}
+			for k, t := range tmSnap {
+				if now := w.tm[k]; now != t {
+					viol("map-modified", fmt.Sprintf("%s changed entry %q of the caller-supplied type map from %v to %v", what, k, t, now))
+					w.tm[k] = t
+				}
 			}
 		}
 		in := w.newInst(c.K, &pools)
